@@ -1,5 +1,5 @@
 ENGINES = [
-    {"name": "csym", "path": "vt/csym.py", "serves_properties": ["C01", "C03"],
+    {"name": "csym", "path": "vt/csym.py", "serves_properties": ["C01", "C03", "C18"],
      "kind_free_text": "symbolic interpreter of traits/ctraits.c over clang's JSON AST (regenerated from the current source on every run), "
                        "CPython API contracts in vt/capi.py, shared path condition with symx; memory-safety assertions on every path"},
     {"name": "symx", "path": "vt/symx.py", "serves_properties": ["C01", "C03", "C04", "C05", "C06", "C07"],
@@ -73,4 +73,19 @@ CHECKS["C01"] = dict(
     note="Trusted: z3, API contracts, Dom_T reference predicates (props/c01.py). trait_set and constructor-keyword entry points are exercised "
          "only in the concrete witness replays (they reach the same has_traits_setattro). Outside: Array traits (numpy C boundary), "
          "Date/Time/UUID/File, symbolic strings, allocation failure.")
+CHECKS["C18"] = dict(
+    engine="csym",
+    text="Per-function bounded model checking of ctraits.c from clang's AST, NOT the dynamic reading of the property (arbitrary API programs "
+         "on a sanitised build are not what a solver decides and are not claimed). Decided: (1) for every function designator that any "
+         "feasible path of trait_new/_trait_set_validate/_trait_delegate/_trait_set_property or any direct assignment stores into a trait's "
+         "getattr/setattr/post_setattr/validate/delegate_attr_name field (set generated from the AST + symbolic exploration), func_index "
+         "terminates inside the table __getstate__ uses and finds it; (2) every static-table subscript of those four functions is inside "
+         "the initialiser for all integer arguments (symbolic, lazily chosen descriptor shapes); (3) on every path of all validators "
+         "(C03's configurations x value kinds) and of first-read / assignment (getattr_trait, default_value_for for 6 default kinds, "
+         "setattr_trait, call_notifiers) the interpreter's memory-safety assertions hold and ghost reference counts are neutral.",
+    design_ref="DESIGN.md section 4 C18", technique="symbolic interpretation of the C source (clang AST) with memory-safety assertions and ghost reference counts, z3",
+    note="Trusted: the interpreter and API contracts (validated in C01/C03 by witness replay on the compiled extension). Memory-safety findings "
+         "cannot be confirmed by a sanitizer here; the table finding is replayed in a subprocess (crash = reproduced), path findings are "
+         "re-interpreted concretely. Outside: type slots, GC traverse/clear, module init, _has_traits_items_event, allocation failure, "
+         "callbacks that drop references the function does not own, hand-written nested descriptors.")
 NOT_APPLICABLE = {p: NOT_BUILT for p in ["C%02d" % i for i in range(1, 21)]}
